@@ -21,6 +21,7 @@ class Merge(Scenario):
         has_v = self.params.get("vdata", [False] * len(shapes))
         has_c = self.params.get("cdata", [False] * len(shapes))
         w = {"points": 0, "curve": 2, "surface": 3}[kind]
+        cname = self.params.get("cell_data_name", "c")      # "d": same name as the vertex data, other association
         cls, merger = {"points": (Points, PointsMerger), "curve": (Curve, CurveMerger),
                        "surface": (Surface, SurfaceMerger)}[kind]
         ws = Workspace()
@@ -31,7 +32,7 @@ class Merge(Scenario):
                 kw["cells"] = real_np.zeros((m, w), dtype="int32")
             o = cls.create(ws, **kw)
             vd = o.add_data({"d": {"values": real_np.zeros(n), "association": "VERTEX"}}) if has_v[e] else None
-            cd = o.add_data({"c": {"values": real_np.zeros(m), "association": "CELL"}}) if (w and has_c[e] and m) else None
+            cd = o.add_data({cname: {"values": real_np.zeros(m), "association": "CELL"}}) if (w and has_c[e] and m) else None
             ins.append(o)
             vds.append(vd)
             cds.append(cd)
@@ -87,10 +88,11 @@ class Merge(Scenario):
                     row += m
                 cx.observe("cells", ce)
             # data
-            for name, assoc, have, col in (("d", "VERTEX", has_v, 2), ("c", "CELL", has_c, 3)):
+            for name, assoc, have, col in (("d", "VERTEX", has_v, 2), (cname, "CELL", has_c, 3)):
                 if not any(h and (col == 2 or (w and shapes[i][1])) for i, h in enumerate(have)):
                     continue
-                got = [c for c in out.children if getattr(c, "name", None) == name]
+                got = [c for c in out.children if getattr(c, "name", None) == name
+                       and getattr(getattr(c, "association", None), "name", None) == assoc]
                 cx.prove(len(got) == 1, f"exactly one merged data '{name}'", "data")
                 if len(got) != 1:
                     continue
@@ -109,7 +111,7 @@ class Merge(Scenario):
                             cx.prove(all(is_nan(vals[off + i]) for i in range(cnt)),
                                      f"'{name}' is no-data where input {e} lacks it", "data")
                     off += cnt
-                cx.observe(name, [v for v in vals if not is_nan(v)])
+                cx.observe(name + assoc, [v for v in vals if not is_nan(v)])
             # inputs unchanged
             for e, (o, (V, C, D, CD), (n, m)) in enumerate(zip(ins, sym, shapes)):
                 ie = elems(o.vertices)
@@ -126,6 +128,89 @@ class Merge(Scenario):
             return "ok"
 
 
+class DrapeMerge(Scenario):
+    """DrapeModelMerger: every input cell (prism x, y, top and its layer bottoms) and its data value is found in the merged
+    model; the inputs are unchanged.  Layout-agnostic: how many filler prisms sit between the inputs is not asserted."""
+    pid = "C16"
+
+    def body(self, cx):
+        from geoh5py.workspace import Workspace
+        from geoh5py.objects import DrapeModel
+        from geoh5py.shared.merging import DrapeModelMerger
+        shapes = self.params["shapes"]          # per input: list of layer counts per prism
+        has_d = self.params.get("data", [True] * len(shapes))
+        ws = Workspace()
+        ins, dts = [], []
+        for e, counts in enumerate(shapes):
+            firsts = [sum(counts[:p]) for p in range(len(counts))]
+            layers0 = real_np.array([[p, k, -1.0 - k] for p in range(len(counts)) for k in range(counts[p])], dtype=float)
+            prisms0 = real_np.array([[float(p), float(e), 0.0, firsts[p], counts[p]] for p in range(len(counts))], dtype=float)
+            dm = DrapeModel.create(ws, layers=layers0, prisms=prisms0, name=f"dm{e}")
+            dt = dm.add_data({"d": {"values": real_np.zeros(sum(counts)), "association": "CELL"}}) if has_d[e] else None
+            ins.append(dm)
+            dts.append(dt)
+        patch.detach(ws, *[x for x in ins + dts if x is not None])
+        with self.engine(cx) as X:
+            sym = []
+            for e, (dm, counts) in enumerate(zip(ins, shapes)):
+                firsts = [sum(counts[:p]) for p in range(len(counts))]
+                P = [[cx.real(f"p{e}_{p}{a}") for a in "xyz"] for p in range(len(counts))]
+                B = [cx.real(f"b{e}_{q}") for q in range(sum(counts))]
+                lay, pri, q = [], [], 0
+                for p in range(len(counts)):
+                    pri += [P[p][0], P[p][1], P[p][2], float(firsts[p]), float(counts[p])]
+                    for k in range(counts[p]):
+                        lay += [float(p), float(k), B[q]]
+                        q += 1
+                dm.layers = mk_array(X, lay, (sum(counts), 3), "float64")
+                dm.prisms = mk_array(X, pri, (len(counts), 5), "float64")
+                D = None
+                if dts[e] is not None:
+                    D = [cx.real(f"d{e}_{q}") for q in range(sum(counts))]
+                    dts[e].values = mk_array(X, D, (sum(counts),), "float64")
+                sym.append((P, B, D, firsts))
+            try:
+                out = DrapeModelMerger.merge_objects(ws, list(ins), add_data=True)
+            except Exception as e:  # noqa: BLE001
+                cx.prove(False, f"merge raised {type(e).__name__}", "merge succeeds on valid same-class inputs")
+                return f"raised {type(e).__name__}"
+            mp, ml = out.prisms, out.layers
+            npz, nl = shape(mp)[0], shape(ml)[0]
+            pe, le = elems(mp), elems(ml)
+            md = [c for c in out.children if getattr(c, "name", None) == "d"]
+            mvals = elems(md[0].values) if md else None
+            cx.prove(out.n_cells == nl and (mvals is None or len(mvals) == nl), "merged data has one entry per merged cell", "data")
+            for e, ((P, B, D, firsts), counts) in enumerate(zip(sym, shapes)):
+                for p in range(len(counts)):
+                    alts = []
+                    for j in range(npz):
+                        fj, cj = pe[j * 5 + 3], pe[j * 5 + 4]
+                        if is_sym_(fj) or is_sym_(cj) or int(cj) != counts[p]:
+                            continue
+                        fj = int(fj)
+                        if fj < 0 or fj + counts[p] > nl:
+                            continue
+                        conj = [eq(pe[j * 5 + a], P[p][a]) for a in range(3)]
+                        for k in range(counts[p]):
+                            conj.append(eq(le[(fj + k) * 3 + 2], B[firsts[p] + k]))
+                            if D is not None and mvals is not None and len(mvals) == nl:
+                                conj.append(eq(mvals[fj + k], D[firsts[p] + k]) if not is_nan(mvals[fj + k]) else False)
+                        alts.append(And(conj))
+                    cx.prove(Or(alts) if alts else False,
+                             f"input {e} prism {p}: same x, y, top, layer bottoms and data values found in the merged model",
+                             "cells connect same coordinates")
+                ie = elems(ins[e].prisms)
+                cx.prove(And([eq(ie[p * 5 + a], P[p][a]) for p in range(len(counts)) for a in range(3)]
+                             + [eq(x, y) for x, y in zip([elems(ins[e].layers)[q * 3 + 2] for q in range(sum(counts))], B)]),
+                         f"input {e} unchanged", "inputs unchanged")
+            return "ok"
+
+
+def is_sym_(x):
+    from symx.core import is_sym
+    return is_sym(x)
+
+
 def scenarios(tier, seed):
     S = []
     if tier == "quick":
@@ -133,7 +218,9 @@ def scenarios(tier, seed):
               Merge(kind="curve", shapes=[(2, 2), (3, 2), (2, 1)], vdata=[False, True, True]),
               Merge(kind="surface", shapes=[(4, 1), (3, 2)], vdata=[True, True], cdata=[True, False]),
               Merge(kind="points", shapes=[(2, 0), (1, 0), (2, 0)], vdata=[True, False, True]),
-              Merge(kind="curve", shapes=[(3, 2), (3, 2)], vdata=[True, True], cdata=[True, True])]
+              Merge(kind="curve", shapes=[(3, 2), (3, 2)], vdata=[True, True], cdata=[True, True]),
+              Merge(kind="surface", shapes=[(4, 2), (4, 2)], vdata=[False, True], cdata=[True, False], cell_data_name="d"),
+              DrapeMerge(shapes=[[2, 1], [1, 2], [1, 1]], data=[True, False, True])]
     else:
         for kind in ("curve", "surface"):
             for shapes in ([(3, 1), (2, 1)], [(4, 2), (3, 2)], [(2, 2), (3, 3), (4, 1)], [(4, 3), (4, 3)],
@@ -142,6 +229,10 @@ def scenarios(tier, seed):
                 for vd, cd in (([True] * k, [True] * k), ([True] + [False] * (k - 1), [False] * (k - 1) + [True]),
                                ([False] * (k - 1) + [True], [False] * k)):
                     S.append(Merge(kind=kind, shapes=shapes, vdata=vd, cdata=cd))
+        S += [Merge(kind="surface", shapes=[(4, 2), (4, 2)], vdata=[False, True], cdata=[True, False], cell_data_name="d"),
+              Merge(kind="curve", shapes=[(3, 2), (2, 1), (3, 3)], vdata=[True, False, True], cdata=[False, True, True], cell_data_name="d")]
+        S += [DrapeMerge(shapes=[[2, 1], [1, 2], [1, 1]], data=[True, False, True]), DrapeMerge(shapes=[[1, 1], [2, 2]]),
+              DrapeMerge(shapes=[[2, 2], [1, 1], [3, 1], [1, 2]], data=[True, True, False, True])]
         for shapes in ([(2, 0), (1, 0), (2, 0)], [(4, 0), (4, 0)], [(1, 0), (1, 0), (1, 0), (1, 0)]):
             k = len(shapes)
             for vd in ([True] * k, [True] + [False] * (k - 1), [False] * (k - 1) + [True]):
@@ -157,10 +248,10 @@ def main(tier, seed):
             "seam A: real in-memory Workspace, save_entity no-op on the instance (the merged object is created for real)",
             "numpy replaced by the symx model; each explored path re-run on real numpy with a model of its path condition",
         ],
-        outside=["drape-model merging", "more or larger inputs than the bounds", "integer / referenced data kinds",
+        outside=["order and number of the filler prisms a drape-model merge inserts between inputs", "more or larger inputs than the bounds", "integer / referenced data kinds",
                  "duplicate data names on one input (ambiguous by the library's own warning)"],
         bounds={"quick": "2-3 inputs, n_i<=4 vertices, m_i<=2 cells with arbitrary in-range indices (unreferenced "
                          "vertices included), float vertex/cell data on an enumerated subset of inputs",
                 "thorough": "2-4 inputs, n_i<=4, m_i<=3, three data-presence patterns per shape, points/curves/surfaces"}[tier],
-        expected_outcomes={"Merge": {"ok"}},
+        expected_outcomes={"Merge": {"ok"}, "DrapeMerge": {"ok"}},
     )
